@@ -352,6 +352,7 @@ func checkC07(e *Engine, r *Report) {
 
 	checkLibmemFit(e, r, c, ensure, defOC, checkOC, zoneFree, zoneCap, zoneUsage)
 	checkFinalZoneReturned(e, r, c, pubAlloc)
+	checkExpansionTypePurity(e, r)
 
 	for p, n := range map[string]int{"R6:shrink-": 2, "R5:monotone@": 2, "R5:commit-replays-offer": 1,
 		"R1:updates-passthrough@": 2, "R1:allocate-success-is-fit": 1, "R1:fit-checks-new-zone@": 1, "R1:normal-memory-guard": 2,
@@ -509,10 +510,35 @@ func orIncludesFieldOf(v ssa.Value, f *types.Var, base ssa.Value) bool {
 }
 
 func sameObject(a, b ssa.Value) bool {
-	if a == b {
-		return true
+	return a == b || unspill(a) == unspill(b)
+}
+
+// unspill looks through a load of a local cell that is stored exactly once and never written by a closure (a parameter or
+// local that go/ssa keeps in memory because a closure or defer captures it): the cell's only value.
+func unspill(v ssa.Value) ssa.Value {
+	for i := 0; i < 4; i++ {
+		u, ok := v.(*ssa.UnOp)
+		if !ok || u.Op != token.MUL {
+			return v
+		}
+		al, ok := u.X.(*ssa.Alloc)
+		if !ok || cellWrittenInClosures(al) {
+			return v
+		}
+		var only ssa.Value
+		n := 0
+		for _, r := range *al.Referrers() {
+			if st, ok := r.(*ssa.Store); ok && st.Addr == ssa.Value(al) {
+				n++
+				only = st.Val
+			}
+		}
+		if n != 1 {
+			return v
+		}
+		v = only
 	}
-	return false
+	return v
 }
 
 func findFieldByName(e *Engine, pkg, name string) *types.Var {
@@ -753,4 +779,204 @@ func checkFinalZoneReturned(e *Engine, r *Report, c *lmCtx, pubAlloc *ssa.Functi
 		}
 	}
 	r.MinInstances("success returns of Allocate/realloc", n, 2)
+
+	// no lost update of the recorded zone / types: a store computed from the field's own earlier value must not be
+	// separated from that read by anything that may write the field (overcommit handling moves the requester itself)
+	nSt := 0
+	for _, f := range []*types.Var{c.fReqZone, e.Field(pkgLM, "Request", "types")} {
+		if f == nil {
+			continue
+		}
+		for _, fn := range e.funcsInPkg(pkgLM) {
+			lus, k := e.lostUpdates(fn, f)
+			nSt += k
+			for _, lu := range lus {
+				r.Check("R15:no-lost-update#Request."+f.Name()+"@"+FnName(TopParent(fn)), "R15 no lost update", "a new value of Request."+f.Name()+" computed from its old value is stored before anything else may write the field (the recorded zone is what overcommit handling left, plus the additions)",
+					e.InstrPos(lu.Store), fn, false, "read at "+e.InstrPos(lu.Load)+", possibly rewritten at "+e.InstrPos(lu.Writer)+", then overwritten from the stale read", true)
+			}
+			if k > 0 && len(lus) == 0 {
+				r.Check("R15:no-lost-update#Request."+f.Name()+"@"+FnName(TopParent(fn)), "R15 no lost update", "a new value of Request."+f.Name()+" computed from its old value is stored before anything else may write the field (the recorded zone is what overcommit handling left, plus the additions)",
+					e.Pos(fn.Pos()), fn, true, fmt.Sprintf("%d stores", k), true)
+			}
+		}
+	}
+	r.MinInstances("stores to Request.zone/types", nSt, 3)
+}
+
+// ---- expansion type purity ---------------------------------------------------------------------------------
+//
+// newCloseNodesOfType(zone, t) may only return nodes of type t: defaultExpand reports the expansion as "of type t" and
+// the strict-type test of zoneShrinkUsage (and ensureNormalMemory) trusts that report. Decided as containment in the
+// mask algebra: the returned accumulator cell, and every value stored into it (in the function or any nested closure),
+// is ⊆ byTypes[t.Mask()] — built by &-ing with that table entry; | of contained values; &^ of a contained value; 0.
+
+// cellOf resolves a (possibly nested) captured variable to the cell allocated in the outermost function.
+func cellOf(v ssa.Value) *ssa.Alloc {
+	cz := &canonizer{}
+	for i := 0; i < 6; i++ {
+		switch x := v.(type) {
+		case *ssa.Alloc:
+			return x
+		case *ssa.FreeVar:
+			b, _ := cz.closureBinding(x)
+			if b == nil {
+				return nil
+			}
+			v = b
+		default:
+			return nil
+		}
+	}
+	return nil
+}
+
+// cellStores: every store into the cell, in the allocating function and in all closures that capture it.
+func cellStores(al *ssa.Alloc) []*ssa.Store {
+	var out []*ssa.Store
+	var visit func(addr ssa.Value, d int)
+	visit = func(addr ssa.Value, d int) {
+		if d > 6 {
+			return
+		}
+		refs := addr.Referrers()
+		if refs == nil {
+			return
+		}
+		for _, r := range *refs {
+			switch x := r.(type) {
+			case *ssa.Store:
+				if x.Addr == addr {
+					out = append(out, x)
+				}
+			case *ssa.MakeClosure:
+				fn, _ := x.Fn.(*ssa.Function)
+				if fn == nil {
+					continue
+				}
+				for i, b := range x.Bindings {
+					if b == addr && i < len(fn.FreeVars) {
+						visit(fn.FreeVars[i], d+1)
+					}
+				}
+			}
+		}
+	}
+	visit(al, 0)
+	return out
+}
+
+func checkExpansionTypePurity(e *Engine, r *Report) {
+	fn := r.Anchor(pkgLM, "Allocator.newCloseNodesOfType")
+	if fn == nil {
+		return
+	}
+	var tParam *ssa.Parameter
+	for _, p := range fn.Params {
+		if n := namedOf(p.Type()); n != nil && n.Obj().Name() == "Type" && n.Obj().Pkg() != nil && n.Obj().Pkg().Path() == pkgLM {
+			tParam = p
+		}
+	}
+	if tParam == nil {
+		r.Undecided("R6:expansion-type-pure", "R6 expansion type purity", "the type parameter of newCloseNodesOfType resolves", e.Pos(fn.Pos()), fn, "no parameter of type Type")
+		return
+	}
+	// does v denote the function's type parameter (through spilled / captured cells)?
+	isT := func(v ssa.Value) bool {
+		if u, ok := v.(*ssa.UnOp); ok && u.Op == token.MUL {
+			if al := cellOf(u.X); al != nil {
+				sts := cellStores(al)
+				return len(sts) == 1 && sts[0].Val == ssa.Value(tParam)
+			}
+		}
+		return v == ssa.Value(tParam)
+	}
+	isTypeTable := func(v ssa.Value) bool { // byTypes[t.Mask()]
+		lk, ok := v.(*ssa.Lookup)
+		if !ok {
+			return false
+		}
+		if f, _ := loadedField(lk.X); f == nil || f.Name() != "byTypes" {
+			return false
+		}
+		call, ok := lk.Index.(*ssa.Call)
+		if !ok || callObj(call.Common()) == nil || callObj(call.Common()).Name() != "Mask" || len(callArgs(call)) != 1 {
+			return false
+		}
+		return isT(callArgs(call)[0])
+	}
+	inProg := map[ssa.Value]bool{}
+	cellIn := map[*ssa.Alloc]bool{}
+	why := ""
+	var typed func(v ssa.Value, d int) bool
+	typed = func(v ssa.Value, d int) bool {
+		if d > 40 {
+			return false
+		}
+		if inProg[v] {
+			return true // coinductive
+		}
+		inProg[v] = true
+		defer delete(inProg, v)
+		if isTypeTable(v) {
+			return true
+		}
+		switch x := v.(type) {
+		case *ssa.Const:
+			if k, ok := constIntVal(x); ok && k == 0 {
+				return true
+			}
+		case *ssa.BinOp:
+			switch x.Op {
+			case token.AND:
+				return typed(x.X, d+1) || typed(x.Y, d+1)
+			case token.AND_NOT:
+				return typed(x.X, d+1)
+			case token.OR:
+				return typed(x.X, d+1) && typed(x.Y, d+1)
+			}
+		case *ssa.Phi:
+			for _, ed := range x.Edges {
+				if !typed(ed, d+1) {
+					return false
+				}
+			}
+			return true
+		case *ssa.ChangeType:
+			return typed(x.X, d+1)
+		case *ssa.Convert:
+			return typed(x.X, d+1)
+		case *ssa.UnOp:
+			if x.Op == token.MUL {
+				if al := cellOf(x.X); al != nil {
+					if cellIn[al] {
+						return true
+					}
+					cellIn[al] = true
+					defer delete(cellIn, al)
+					for _, st := range cellStores(al) {
+						if !typed(st.Val, d+1) {
+							if why == "" {
+								why = "stored at " + e.InstrPos(st) + ": " + st.Val.String()
+							}
+							return false
+						}
+					}
+					return true // incl. the zero value
+				}
+			}
+		}
+		if why == "" {
+			why = "value of unknown type origin: " + v.String() + " at " + e.Pos(v.Pos())
+		}
+		return false
+	}
+	n := 0
+	for _, ret := range Returns(fn) {
+		n++
+		why = ""
+		ok := typed(retValue(ret, 0), 0)
+		r.Check("R6:expansion-type-pure", "R6 expansion type purity", "the nodes newCloseNodesOfType(zone, t) returns are nodes of type t (every value accumulated into the result is masked with byTypes[t.Mask()]), as defaultExpand reports them to the strict-type tests",
+			e.InstrPos(ret), fn, ok, why, true)
+	}
+	r.MinInstances("returns of newCloseNodesOfType", n, 1)
 }
